@@ -215,6 +215,13 @@ ROUND14 = {
     'C14': " Round 14: what read() has not handed out stays in the file (share of C13.R15 / R7); every path of tell() answers with a position.",
 }
 
+# obligations added in round 15
+ROUND15 = {
+    'C04': " Round 15: after a CLOSE the publisher decides again from all the consumers it knows (share of C03.R6).",
+    'C07': " Round 15: send() answers 'not sent' only when nothing was published (share of C04.R9): a retried frame is not published twice.",
+    'C10': " Round 15: the cached JPEG is stored only by the constructor, from_blob, the jpg accessor and unreduce (a writable copy is never handed the JPEG of its source).",
+}
+
 NOT_APPLICABLE = {
     'C11': 'Every clause is an equality between values computed by string parsing over an unbounded grammar; there is no renderer to pair with the parsers and the only structural facts in reach are already caught by the existing test_normalize_config tests, so a static proxy would detect nothing new (DESIGN.md §5).',
 }
@@ -229,7 +236,7 @@ def main():
         if pid not in reg:
             continue
         tech, text, ref, nd = CLAIMS[pid]
-        text += ROUND6.get(pid, '') + ROUND7.get(pid, '') + ROUND8.get(pid, '') + ROUND9.get(pid, '') + ROUND10.get(pid, '') + ROUND11.get(pid, '') + ROUND12.get(pid, '') + ROUND13.get(pid, '') + ROUND14.get(pid, '')
+        text += ROUND6.get(pid, '') + ROUND7.get(pid, '') + ROUND8.get(pid, '') + ROUND9.get(pid, '') + ROUND10.get(pid, '') + ROUND11.get(pid, '') + ROUND12.get(pid, '') + ROUND13.get(pid, '') + ROUND14.get(pid, '') + ROUND15.get(pid, '')
         checks.append({
             'property_id': pid,
             'quick_cmd': f'./check {pid} --tier quick',
